@@ -10,7 +10,8 @@ RULE = ("Pairs of disjoint trees built twice from one generated spec (all eight 
         "shared as the API shares them), optionally with exactly one difference applied to one node at any depth and "
         "child position (name, content incl. None vs '', tail, attribute added/removed/changed, extra, prefix, namespace "
         "binding, child added/removed, two adjacent children swapped); also copy()-derived pairs before and after one "
-        "API edit.  Oracle: an independent comparer over value snapshots; is_equal(a,b) == reference == is_equal(b,a). "
+        "API edit.  Oracle: an independent comparer over value snapshots; is_equal(a,b) == reference == is_equal(b,a); "
+        "a fresh copy must compare equal, and after an effective edit of one side the two must compare unequal. "
         "Non-trivial: unequal pairs whose difference lies outside the first-child chain; distinct (tree, difference) by hash.")
 ASSUMPTIONS = [
     "only distinct trees are compared (is_equal answers False for the same object by design)",
